@@ -519,7 +519,6 @@ impl<'a, Lookup: Fn(u16) -> Option<AsRoutingInterfaceState>> AdvanceValidator
             true => {
                 if hop_index == self.arrival_hop_index
                     && self.current_interface_id != 0
-                    && ingress_interface != 0
                     && ingress_interface != self.current_interface_id
                 {
                     return Err(StandardRoutingError::InvalidIngressInterface {
